@@ -175,6 +175,10 @@ func mixString(v, d string) string {
 type Rec struct {
 	A uint32
 	B string
+	// C is optional: it is encoded only when it is non-zero, and - like encoding/json with
+	// omitempty, the codec of the README's record example - UnmarshalBinary leaves it alone when
+	// the input does not carry it. A decoder may only be handed a fresh (or reset) instance.
+	C uint16
 }
 
 // recYield makes MarshalBinary yield the processor first (widens the window between a merge
@@ -185,10 +189,13 @@ func (r *Rec) MarshalBinary() ([]byte, error) {
 	if recYield.Load() {
 		runtime.Gosched()
 	}
-	out := make([]byte, 4+len(r.B))
+	out := make([]byte, 5, 7+len(r.B))
 	binary.BigEndian.PutUint32(out, r.A)
-	copy(out[4:], r.B)
-	return out, nil
+	if r.C != 0 {
+		out[4] = 1
+		out = append(out, byte(r.C>>8), byte(r.C))
+	}
+	return append(out, r.B...), nil
 }
 
 func (r *Rec) UnmarshalBinary(b []byte) error {
@@ -196,22 +203,29 @@ func (r *Rec) UnmarshalBinary(b []byte) error {
 		*r = Rec{}
 		return nil
 	}
-	if len(b) < 4 {
-		return errors.New("rec: short input")
+	if len(b) < 5 || (b[4] == 1 && len(b) < 7) || b[4] > 1 {
+		return errors.New("rec: malformed input")
 	}
 	r.A = binary.BigEndian.Uint32(b)
-	r.B = string(b[4:])
+	rest := b[5:]
+	if b[4] == 1 {
+		r.C = uint16(rest[0])<<8 | uint16(rest[1]) // only touched when present
+		rest = rest[2:]
+	}
+	r.B = string(rest)
 	return nil
 }
 
-func recBytes(a uint32, b string) string {
-	r := Rec{A: a, B: b}
+func recBytes(a uint32, b string) string { return recBytes3(a, b, 0) }
+
+func recBytes3(a uint32, b string, c uint16) string {
+	r := Rec{A: a, B: b, C: c}
 	out, _ := r.MarshalBinary()
 	return string(out)
 }
 
-func recSum(v, d *Rec) *Rec { return &Rec{A: v.A + d.A, B: v.B + d.B} }
-func recMix(v, d *Rec) *Rec { return &Rec{A: v.A*3 + d.A, B: d.B} }
+func recSum(v, d *Rec) *Rec { return &Rec{A: v.A + d.A, B: v.B + d.B, C: v.C + d.C} }
+func recMix(v, d *Rec) *Rec { return &Rec{A: v.A*3 + d.A, B: d.B, C: d.C} } // same encoded length as the delta
 
 // mergeBytes computes the model result of a merge for string/record kinds.
 func mergeBytes(k Kind, mk MergeKind, cur, delta string) string {
